@@ -270,6 +270,11 @@ class Judge:
             if k == "bin" and p.get("op") == "||" and self._inside(p.get("r"), child) and \
                     _implies_ge_len(p["l"], itext, ioff, vtext) and len(_disjuncts(p["l"])) == 1:
                 return "safe", "R1 left operand `%s` of ||" % expr_text(_strip(p["l"]))[:60]
+            if k == "while" and self._inside(p.get("body"), child):
+                # while I < V.len() { .. V[I] .. }: the guard holds at the top of each iteration
+                before = self._before_in(p["body"], site)
+                if _implies_lt(p.get("cond"), itext, ioff, vtext) and not _mutates(before, ids, vtext):
+                    return "safe", "R1 loop guard `%s`" % expr_text(_strip(p["cond"]))[:60]
             if k == "for":
                 it = _strip(p.get("iter"))
                 pat = p.get("pat") or {}
